@@ -238,7 +238,10 @@ func c15Run(t *testing.T, c c15Case) c15Outcome {
 			CollectSourcePublicIP: c.Pub != "off", ReverseDns: c.RDNS,
 		}
 		if c.Free {
-			params.Timeout = 0
+			// real clock: no time-out at all, or one so small that the whole "traceroute window"
+			// (MaxTTL x Timeout) is over before the first probe is launched — legal values, and the
+			// request still owes every probe it was asked for
+			params.Timeout = []time.Duration{0, 0, time.Nanosecond, time.Microsecond, 50 * time.Microsecond}[(c.NRuns+3*c.NProbes+c.Rank[0])%5]
 		}
 		ctx, cancel := context.WithCancel(context.Background())
 		defer cancel()
